@@ -15,8 +15,8 @@ RULE = ('filter ASTs (has / not / six comparisons against bool, number, quantity
         'quantity, other unit, str vs uri), Ref to an existing row, dangling Ref, non-Ref where a Ref is needed. Oracle: a '
         'reference evaluator written from the Haystack filter semantics (DESIGN.md Appendix C): selected rows by identity '
         'and order, cut at limit; result carries version/metadata/columns; source grid unchanged; no exception. Exhaustive: '
-        'all filters with <= 3 atoms over a 12-atom alphabet x 8 connective shapes against a grid holding every combination '
-        'of 7 x 7 x 5 tag valuations. Non-trivial = the filter selects a proper non-empty subset, or has >= 3 operands, or '
+        'all filters with <= 3 atoms over a 16-atom alphabet x 8 connective shapes against a grid holding every combination '
+        'of 10 x 10 x 5 tag valuations. Non-trivial = the filter selects a proper non-empty subset, or has >= 3 operands, or '
         'contains ->; distinct by (filter text, grid).')
 ASSUMPTIONS = ['row ids are plain strings and a Ref matches the row whose str(id) equals the Ref name (hszinc\'s documented '
                'convention in its tests)', 'Ref values compared with ref literals carry no display name; Ref equality is by name',
@@ -163,8 +163,12 @@ def check(case, grid=None, excl=frozenset()):
 
 ATOMS = [['has', ['a']], ['not', ['a']], ['cmp', '==', ['a'], ['num', 5.0]], ['cmp', '<', ['a'], ['num', 5.0]],
          ['cmp', '>=', ['a'], ['num', 5.0]], ['has', ['b']], ['not', ['b']], ['cmp', '!=', ['b'], ['num', 5.0]],
-         ['has', ['r', 'a']], ['not', ['r', 'a']], ['cmp', '==', ['r', 'a'], ['num', 5.0]], ['cmp', '>', ['r', 'a'], ['num', 5.0]]]
-A_VALS = ['ABSENT', 'NONE', 'MARKER', ['num', 5.0], ['num', 4.0], ['num', 6.0], ['str', 'x']]
+         ['has', ['r', 'a']], ['not', ['r', 'a']], ['cmp', '==', ['r', 'a'], ['num', 5.0]], ['cmp', '>', ['r', 'a'], ['num', 5.0]],
+         # literals that Python considers equal although their Haystack kinds differ (1 / true, 5 / 5kW, 5kW / 5W)
+         ['cmp', '==', ['a'], ['num', 1.0]], ['cmp', '==', ['b'], ['bool', True]], ['cmp', '==', ['b'], ['qty', 5.0, 'kW']],
+         ['cmp', '<=', ['a'], ['qty', 5.0, 'W']]]
+A_VALS = ['ABSENT', 'NONE', 'MARKER', ['num', 5.0], ['num', 4.0], ['num', 6.0], ['str', 'x'], ['bool', True], ['num', 1.0],
+          ['qty', 5.0, 'kW']]
 R_VALS = [['ref', 'id0', None], ['ref', 'id1', None], ['ref', 'nope', None], ['str', 'id0'], 'ABSENT']
 
 
@@ -204,7 +208,8 @@ def strategies(excl):
                        gen.text(4)).map(lambda s: ['str', s])
     urilit = st.sampled_from(['m', 'http://x/y?z=1', 'a`b', u'\xe9']).map(lambda s: ['uri', s])
     numlit = st.one_of(st.sampled_from([5.0, 0.0, -1.5, 1e6, 1e-3]), st.integers(-50, 50).map(float)).map(lambda v: ['num', v])
-    lit = st.one_of(numlit, numlit, strlit, urilit, st.sampled_from([LITS[k][0] for k in sorted(LITS)]),
+    lit = st.one_of(numlit, strlit, urilit, st.sampled_from([LITS[k][0] for k in sorted(LITS)]),
+                    st.sampled_from([LITS[k][0] for k in sorted(LITS)]), st.sampled_from([['num', 1.0], ['bool', True], ['num', 0.0], ['bool', False]]),
                     st.sampled_from([['qty', 5.0, 'kW'], ['qty', 2.5, u'\xb0C'], ['qty', 100.0, '%'], ['qty', 1.0, 'kWh/m_']]))
     path = st.one_of(tags.map(lambda t: [t]), tags.map(lambda t: [t]), st.tuples(rtags, tags).map(list),
                      st.tuples(rtags, rtags, tags).map(list))
@@ -213,9 +218,8 @@ def strategies(excl):
         if op not in ('==', '!=') and l[0] not in ORDERED:
             op = '=='
         return ['cmp', op, p, l]
-    atom = st.one_of(path.map(lambda p: ['has', p]), path.map(lambda p: ['not', p]),
-                     st.builds(cmp_atom, path, st.sampled_from(fr.CMP_OPS), lit),
-                     st.builds(cmp_atom, path, st.sampled_from(fr.CMP_OPS), lit))
+    cmpa = st.builds(cmp_atom, path, st.sampled_from(fr.CMP_OPS), lit)
+    atom = st.one_of(path.map(lambda p: ['has', p]), path.map(lambda p: ['not', p]), cmpa, cmpa, cmpa, cmpa)
 
     def tree(depth):
         if depth == 0:
@@ -272,7 +276,7 @@ def run(part, args, env):
         for i, ast in enumerate(small_scope_filters()):
             if i % args['of'] != args['shard']:
                 continue
-            if not args['full'] and i > 300 and (i // 16) % 2:      # quick: all 1- and 2-atom filters, every 2nd 3-atom filter
+            if not args['full'] and i > 600 and (i // 16) % 4:      # quick: all 1- and 2-atom filters, every 4th 3-atom filter
                 continue
             case = {'ast': ast, 'choices': [i % 7, (i // 7) % 5] if i % 3 == 0 else [], 'rows': 'small-scope', 'limit': 0 if i % 5 else 3}
             try:
